@@ -212,6 +212,12 @@ pub enum Kind {
     SendAllVectored,
     /// `Ring::pollable` of a second ring, submitted to the first.
     Pollable,
+    /// `Signals::receive` (a read of the signalfd into an inline structure).
+    ReceiveSignal,
+    /// `Signals::receive_signals`: an owned iterator that re-arms itself after every item.
+    ReceiveSignals,
+    /// The same, given up through `into_inner` instead of being dropped.
+    ReceiveSignalsIntoInner,
 }
 
 #[derive(Clone, Copy, Debug, PartialEq, Eq)]
@@ -234,6 +240,8 @@ pub enum Class {
     PoolOne,
     /// Composite: re-issues itself.
     Composite,
+    /// Owned iterator of single-shot operations on one state: every item needs a new submission.
+    Rearm,
 }
 
 impl Kind {
@@ -241,7 +249,7 @@ impl Kind {
         use Kind::*;
         match self {
             ReadVec | ReadVecPrefilled | ReadVectored2 | Recv | RecvVectored | RecvFrom
-            | RecvFromVectored | LocalAddr | SockOpt | Statx | WaitId | ReadLimited | PeerAddr => Class::Data,
+            | RecvFromVectored | LocalAddr | SockOpt | Statx | WaitId | ReadLimited | PeerAddr | ReceiveSignal => Class::Data,
             WriteVec | WriteStatic | WriteString | WriteBoxed | WriteArc | WriteVectored2
             | WriteVectoredTuple | Send | SendTo | SendVectored | Connect | Bind | SetSockOpt
             | CreateDir | Rename | RemoveFile | Fsync | Truncate | Shutdown | CloseFd | Listen | SyncData | FAdvise
@@ -254,6 +262,7 @@ impl Kind {
             | PipeDirect | ToDirect | OpenTemp => Class::Desc,
             ReadN | WriteAll | WriteAllVectored | SendAll | RecvN | ReadNVectored | SendAllVectored => Class::Composite,
             Pollable => Class::StreamUnit,
+            ReceiveSignals | ReceiveSignalsIntoInner => Class::Rearm,
         }
     }
 
@@ -414,6 +423,68 @@ pub fn make(kind: Kind, env: &Env<'_>) -> Op {
             format!("bytes:{}|{}", hex(&b[0]), hex(&b[1]))
         }),
         SendAllVectored => single(fd.send_all_vectored([data(n, 2), data(n + 1, 3)]), |(): (), _| "unit".to_string()),
+        ReceiveSignal => {
+            use a10::process::{Signal, Signals};
+            // The future borrows the Signals: keep both in one holder, future first.
+            struct Holder<F> {
+                fut: Pin<Box<F>>,
+                _sig: Box<Signals>,
+            }
+            let sig = Box::new(Signals::from_signals(env.sq.clone(), [Signal::USER2]).expect("signalfd"));
+            let r: &'static Signals = unsafe { &*std::ptr::from_ref::<Signals>(&*sig) };
+            let mut h = Holder { fut: Box::pin(r.receive()), _sig: sig };
+            let held = talloc::untracked(Held::new_untracked);
+            Op {
+                poller: Box::new(move |cx| {
+                    // Capture the whole holder (closures capture single fields otherwise).
+                    let h = &mut h;
+                    match h.fut.as_mut().poll(cx) {
+                        Poll::Pending => Poll::Pending,
+                        Poll::Ready(Ok(i)) => Poll::Ready(Some(talloc::untracked(|| format!("sig:pid={}:uid={}", i.pid(), i.real_user_id())))),
+                        Poll::Ready(Err(e)) => Poll::Ready(Some(talloc::untracked(|| err_str(&e)))),
+                    }
+                }),
+                stream: false,
+                held: held.fds,
+                bufs: held.bufs,
+            }
+        }
+        ReceiveSignals | ReceiveSignalsIntoInner => {
+            use a10::process::{ReceiveSignals, Signal, Signals};
+            struct Holder {
+                it: Option<Box<ReceiveSignals>>,
+                into_inner: bool,
+            }
+            impl Drop for Holder {
+                fn drop(&mut self) {
+                    if let Some(it) = self.it.take() {
+                        if self.into_inner {
+                            let signals: Signals = (*it).into_inner();
+                            drop(signals);
+                        } else {
+                            drop(it);
+                        }
+                    }
+                }
+            }
+            let sig = Signals::from_signals(env.sq.clone(), [Signal::USER2]).expect("signalfd");
+            let mut h = Holder { it: Some(Box::new(sig.receive_signals())), into_inner: kind == ReceiveSignalsIntoInner };
+            let held = talloc::untracked(Held::new_untracked);
+            Op {
+                poller: Box::new(move |cx| {
+                    let h = &mut h;
+                    match Pin::new(&mut **h.it.as_mut().unwrap()).poll_next(cx) {
+                        Poll::Pending => Poll::Pending,
+                        Poll::Ready(None) => Poll::Ready(None),
+                        Poll::Ready(Some(Ok(i))) => Poll::Ready(Some(talloc::untracked(|| format!("sig:pid={}:uid={}", i.pid(), i.real_user_id())))),
+                        Poll::Ready(Some(Err(e))) => Poll::Ready(Some(talloc::untracked(|| err_str(&e)))),
+                    }
+                }),
+                stream: false,
+                held: held.fds,
+                bufs: held.bufs,
+            }
+        }
         Pollable => {
             // The watched ring lives (and is torn down) with the operation.
             let other = a10::Ring::config().with_submission_queue_size(1).build().expect("second ring");
